@@ -947,10 +947,27 @@ func c12Placeholders(c *Ctx, r *Report, rule string) {
 						return false
 					}
 					k2, m2, on := setOf(c2)
-					if k2 != k || m2 != m || on == nil {
+					if k2 == k && m2 == m && on != nil {
+						return strings.Contains(typeStr(on.Type()), "proxyprotocol.Conn") || derivesFrom(on, wrapper) || strings.HasSuffix(typeStr(on.Type()), "net.Conn")
+					}
+					// a helper of the package that sets the placeholder, on every path, from the connection it is given
+					h := c2.Common().StaticCallee()
+					if h == nil || h.Pkg != fn.Pkg || len(h.Blocks) == 0 || h == g {
 						return false
 					}
-					return strings.Contains(typeStr(on.Type()), "proxyprotocol.Conn") || derivesFrom(on, wrapper)
+					inner := func(x ssa.Instruction) bool {
+						c3, ok := x.(ssa.CallInstruction)
+						if !ok {
+							return false
+						}
+						k3, m3, on3 := setOf(c3)
+						if k3 != k || m3 != m || on3 == nil {
+							return false
+						}
+						_, isParam := on3.(*ssa.Parameter)
+						return isParam
+					}
+					return pathFromEntryAvoiding(h, isReturn, inner) == nil
 				}
 				target := func(in ssa.Instruction) bool { return in == ssa.Instruction(ci) }
 				hit := pathFromEntryAvoiding(g, target, isSet)
@@ -1308,5 +1325,395 @@ func c18ParsersAssign(c *Ctx, r *Report, rule string) {
 	}
 	if n == 0 {
 		r.bad(rule, "codec packages", "slice fields", "-", "no parser assigning a slice field found")
+	}
+}
+
+// c08AfterHandOff: a connection that was handed to the wrapped listener belongs to its consumer, whose reads update
+// the connection's plain counters. The goroutine that did the hand-off must not look at them any more (its
+// "connection stats" would race with the consumer and say nothing about its own share).
+func c08AfterHandOff(c *Ctx, r *Report, rule string) {
+	r.rule(rule, "listener wrapper: after the route chain has returned, handle reads the connection's plain counter (bytesRead) only where the result is known not to be the hand-off (errHijacked) - the consumer of a handed-off connection is updating it", 1)
+	const anchor = "layer4.(*listener).handle"
+	fn := c.Fn(anchor)
+	if fn == nil {
+		r.bad(rule, anchor, "exists", "-", "function not found")
+		return
+	}
+	n := 0
+	for _, b := range fn.Blocks {
+		for _, in := range b.Instrs {
+			ld, ok := in.(*ssa.UnOp)
+			if !ok || ld.Op != token.MUL {
+				continue
+			}
+			_, sn, f, ok := fieldAddr(ld.X)
+			if !ok || sn != "layer4.Connection" || f != "bytesRead" {
+				continue
+			}
+			n++
+			guarded := false
+			for _, cd := range edgeConds(b) {
+				if isHijackTest(cd.V, 0) && !cd.Truth {
+					guarded = true
+				}
+			}
+			r.check(guarded, rule, anchor, "read of bytesRead after the chain returned", c.ipos(ld), "only where the connection was not handed off", "handle reads cx.bytesRead for its statistics also when the connection has been handed to the wrapped listener: the consumer's Read is adding to that counter at the same time - a data race on every handed-off connection (and the figure logged is not this handler's)")
+		}
+	}
+	// the statistics written by a helper of the package that is given the connection
+	for _, ci := range callsIn(fn) {
+		call, ok := ci.(*ssa.Call)
+		if !ok {
+			continue
+		}
+		g := call.Call.StaticCallee()
+		if g == nil || g.Pkg != fn.Pkg || len(g.Blocks) == 0 || g == fn {
+			continue
+		}
+		reads := false
+		for _, b := range g.Blocks {
+			for _, in := range b.Instrs {
+				if ld, ok := in.(*ssa.UnOp); ok && ld.Op == token.MUL {
+					if base, sn, f, ok := fieldAddr(ld.X); ok && sn == "layer4.Connection" && f == "bytesRead" {
+						if _, isP := base.(*ssa.Parameter); isP {
+							reads = true
+						}
+					}
+				}
+			}
+		}
+		if !reads {
+			continue
+		}
+		n++
+		guarded := false
+		for _, cd := range edgeConds(call.Block()) {
+			if isHijackTest(cd.V, 0) && !cd.Truth {
+				guarded = true
+			}
+		}
+		r.check(guarded, rule, anchor, "read of bytesRead after the chain returned", c.ipos(call), "only where the connection was not handed off", "handle has "+fname(g)+" read cx.bytesRead for its statistics also when the connection has been handed to the wrapped listener: the consumer's Read is adding to that counter at the same time - a data race on every handed-off connection")
+	}
+	if n == 0 {
+		r.ok(rule, anchor, "read of bytesRead", c.pos(fn.Pos()), "handle does not read the counter")
+	}
+}
+
+// c09IdleTimerDrained: Read re-arms the idle timer of the association each time it starts waiting. Under the timer
+// semantics this module is built with (go 1.22 in go.mod: a tick stays in the channel until it is received), a tick
+// from an earlier period - the handler was busy elsewhere for longer than the idle time - survives a bare Reset and
+// ends the next Read at once, with the client's datagram still queued. The timer is therefore stopped and its
+// channel drained before it is re-armed.
+func c09IdleTimerDrained(c *Ctx, r *Report, rule string) {
+	r.rule(rule, "UDP association: the idle timer is re-armed (Reset) only after Stop, with a tick that Stop reports as already sent taken out of the channel: a tick left from an earlier period must not end the next Read while datagrams are queued", 1)
+	const anchor = "layer4.(*packetConn).Read"
+	fn := c.Fn(anchor)
+	if fn == nil {
+		r.bad(rule, anchor, "exists", "-", "function not found")
+		return
+	}
+	// which timer a value is: the association's field, or - in a helper that is given the address of a timer
+	// variable - the field whose address a caller in the package passes
+	var timerOf func(g *ssa.Function, v ssa.Value) string
+	timerOf = func(g *ssa.Function, v ssa.Value) string {
+		ld, ok := v.(*ssa.UnOp)
+		if !ok || ld.Op != token.MUL {
+			return ""
+		}
+		if _, sn, f, ok := fieldAddr(ld.X); ok && sn == "layer4.packetConn" {
+			return f
+		}
+		if pr, ok := ld.X.(*ssa.Parameter); ok {
+			idx := paramIndex(g, pr)
+			sites, _ := c.callSitesOf(g)
+			for _, cs := range sites {
+				if idx >= 0 && idx < len(cs.Common().Args) {
+					if _, sn, f, ok := fieldAddr(cs.Common().Args[idx]); ok && sn == "layer4.packetConn" && f == "idleTimer" {
+						return f
+					}
+				}
+			}
+		}
+		return ""
+	}
+	chanOf := func(g *ssa.Function, v ssa.Value) string {
+		ld, ok := v.(*ssa.UnOp)
+		if !ok || ld.Op != token.MUL {
+			return ""
+		}
+		fa, ok := ld.X.(*ssa.FieldAddr)
+		if !ok {
+			return ""
+		}
+		if _, sn, f, ok := fieldAddr(fa); !ok || sn != "time.Timer" || f != "C" {
+			return ""
+		}
+		return timerOf(g, fa.X)
+	}
+	n := 0
+	for g := range c.reachSync(fn) {
+		if g.Pkg != fn.Pkg {
+			continue
+		}
+		for _, ci := range callsIn(g) {
+			if calleeID(ci) != "(*time.Timer).Reset" || len(ci.Common().Args) == 0 || timerOf(g, ci.Common().Args[0]) != "idleTimer" {
+				continue
+			}
+			n++
+			stopped, drained := false, false
+			for _, c2 := range callsIn(g) {
+				if calleeID(c2) == "(*time.Timer).Stop" && len(c2.Common().Args) > 0 && timerOf(g, c2.Common().Args[0]) == "idleTimer" {
+					if c2.Block() == ci.Block() || c2.Block().Dominates(ci.Block()) {
+						stopped = true
+					}
+				}
+			}
+			for _, b := range g.Blocks {
+				for _, in := range b.Instrs {
+					switch x := in.(type) {
+					case *ssa.UnOp:
+						if x.Op == token.ARROW && chanOf(g, x.X) == "idleTimer" && canReach(x, ci) {
+							drained = true
+						}
+					case *ssa.Select:
+						for _, st := range x.States {
+							if st.Dir == types.RecvOnly && chanOf(g, st.Chan) == "idleTimer" && !x.Blocking && canReach(x, ci) {
+								drained = true
+							}
+						}
+					}
+				}
+			}
+			r.check(stopped && drained, rule, anchor, "re-arming the idle timer", c.ipos(ci), "Stop, drain, Reset", "the idle timer is re-armed with a bare Reset: a tick that fired while the handler was not reading (busy for longer than the idle time) stays in the channel and the next Read takes it for idle expiry - it returns EOF at once although the client's datagram is queued, and Close discards the queue")
+		}
+	}
+	if n == 0 {
+		r.bad(rule, anchor, "re-arming the idle timer", c.pos(fn.Pos()), "undecided: no Reset of the idle timer found")
+	}
+}
+
+// c18ParsersAssignAlways: a parser that gives a field of its object a value on one successful path and leaves it
+// alone on another (the optional part is absent) returns, on an object that was used before, the new message with
+// the old optional part: serialising it does not reproduce the input. Every field of the receiver that a parser
+// assigns on some path to a successful return is assigned on every such path.
+func c18ParsersAssignAlways(c *Ctx, r *Report, rule string) {
+	r.rule(rule, "wire-message parsers (FromBytes* methods of the codec packages): a field of the receiver that is assigned on some path to a return without error is assigned on every such path (an absent optional part clears the field instead of leaving what an earlier parse put there)", 20)
+	n := 0
+	for _, fn := range sortedFuncs(func() map[*ssa.Function]bool {
+		m := map[*ssa.Function]bool{}
+		for _, f := range c.Funcs {
+			m[f] = true
+		}
+		return m
+	}()) {
+		if fn.Pkg == nil || fn.Signature.Recv() == nil || len(fn.Params) == 0 || !strings.HasPrefix(fn.Name(), "FromBytes") || len(fn.Blocks) == 0 {
+			continue
+		}
+		switch fn.Pkg.Pkg.Path() {
+		case modPath + "/modules/l4openvpn", modPath + "/modules/l4wireguard", modPath + "/modules/l4winbox", modPath + "/modules/l4rdp":
+		default:
+			continue
+		}
+		res := fn.Signature.Results()
+		if res.Len() != 1 || !types.Identical(res.At(0).Type(), types.Universe.Lookup("error").Type()) {
+			continue
+		}
+		recv := fn.Params[0]
+		// the fields of the receiver (through nested structs) that the function stores to
+		chainOf := func(addr ssa.Value) string {
+			root, chain := fieldChain(addr)
+			if root != ssa.Value(recv) || chain == "" {
+				return ""
+			}
+			return chain
+		}
+		fields := map[string]token.Pos{}
+		for _, b := range fn.Blocks {
+			for _, in := range b.Instrs {
+				if st, ok := in.(*ssa.Store); ok {
+					if ch := chainOf(st.Addr); ch != "" {
+						if _, seen := fields[ch]; !seen {
+							fields[ch] = st.Pos()
+						}
+					}
+				}
+			}
+		}
+		var chains []string
+		for ch := range fields {
+			chains = append(chains, ch)
+		}
+		sort.Strings(chains)
+		okReturn := func(in ssa.Instruction) bool {
+			ret, ok := in.(*ssa.Return)
+			if !ok || len(ret.Results) != 1 {
+				return false
+			}
+			if k, isC := ret.Results[0].(*ssa.Const); isC {
+				return k.IsNil()
+			}
+			if _, isMI := ret.Results[0].(*ssa.MakeInterface); isMI {
+				return false
+			}
+			if ld, isLd := ret.Results[0].(*ssa.UnOp); isLd {
+				if _, isG := ld.X.(*ssa.Global); isG {
+					return false // a package-level error value
+				}
+			}
+			return !onNonNilEdge(ret.Block(), ret.Results[0])
+		}
+		for _, ch := range chains {
+			n++
+			isStore := func(in ssa.Instruction) bool {
+				st, ok := in.(*ssa.Store)
+				return ok && chainOf(st.Addr) == ch
+			}
+			hit := pathFromEntryAvoiding(fn, okReturn, isStore)
+			name := strings.TrimSuffix(ch, "/")
+			if i := strings.LastIndex(name, "/"); i >= 0 {
+				name = name[i+1:]
+			}
+			r.check(hit == nil, rule, fname(fn), "field "+name, c.pos(fields[ch]), "assigned on every successful path", func() string {
+				if hit == nil {
+					return ""
+				}
+				return "the parser can return without error at " + c.ipos(hit) + " without having assigned " + name + ": parsed into an object that was used before, the message keeps that part of the earlier one, and serialising it does not reproduce the input"
+			}())
+		}
+	}
+	if n == 0 {
+		r.bad(rule, "codec packages", "fields", "-", "no parser assigning a field of its receiver found")
+	}
+}
+
+// isHijackTest: v is the answer to "was the connection handed off" - errors.Is(err, errHijacked) itself, a variable
+// (also one shared with deferred closures) that is only ever given such an answer, or a local function returning one.
+func isHijackTest(v ssa.Value, d int) bool {
+	if d > 4 {
+		return false
+	}
+	switch x := v.(type) {
+	case *ssa.Call:
+		if calleeID(x) == "errors.Is" && len(x.Call.Args) == 2 {
+			for _, o := range origins(x.Call.Args[1], sliceOpts{}) {
+				if strings.Contains(o.Desc, "errHijacked") {
+					return true
+				}
+			}
+			return false
+		}
+		var g *ssa.Function
+		if mc, ok := x.Call.Value.(*ssa.MakeClosure); ok {
+			g, _ = mc.Fn.(*ssa.Function)
+		} else {
+			g = x.Call.StaticCallee()
+		}
+		if g == nil || len(g.Blocks) == 0 || g.Pkg == nil || !strings.HasPrefix(g.Pkg.Pkg.Path(), modPath) {
+			// a closure kept in a local variable
+			if ld, ok := x.Call.Value.(*ssa.UnOp); ok {
+				if al, ok := ld.X.(*ssa.Alloc); ok {
+					for _, sv := range storesToDeep(al) {
+						if mc, ok := sv.(*ssa.MakeClosure); ok {
+							g, _ = mc.Fn.(*ssa.Function)
+						}
+					}
+				}
+			}
+			if g == nil || len(g.Blocks) == 0 {
+				return false
+			}
+		}
+		rets := returnsOf(g)
+		if len(rets) == 0 {
+			return false
+		}
+		for _, ret := range rets {
+			if len(ret.Results) != 1 || !isHijackTest(ret.Results[0], d+1) {
+				return false
+			}
+		}
+		return true
+	case *ssa.UnOp:
+		if x.Op != token.MUL {
+			return false
+		}
+		var stores []ssa.Value
+		switch a := x.X.(type) {
+		case *ssa.Alloc:
+			stores = storesToDeep(a)
+		case *ssa.FreeVar:
+			// the enclosing function's variable
+			if fn := a.Parent(); fn != nil && fn.Parent() != nil {
+				for i, fv := range fn.FreeVars {
+					if fv == a {
+						for _, ref := range *fn.Referrers() {
+							if mc, ok := ref.(*ssa.MakeClosure); ok && i < len(mc.Bindings) {
+								if al, ok := mc.Bindings[i].(*ssa.Alloc); ok {
+									stores = storesToDeep(al)
+								}
+							}
+						}
+					}
+				}
+			}
+		}
+		n := 0
+		for _, sv := range stores {
+			if b, isC := constBool(sv); isC && !b {
+				continue
+			}
+			if !isHijackTest(sv, d+1) {
+				return false
+			}
+			n++
+		}
+		return n > 0
+	case *ssa.Phi:
+		n := 0
+		for _, e := range x.Edges {
+			if b, isC := constBool(e); isC && !b {
+				continue
+			}
+			if !isHijackTest(e, d+1) {
+				return false
+			}
+			n++
+		}
+		return n > 0
+	}
+	return false
+}
+
+// c04HeaderAddrs: the addresses of a parsed PROXY header are optional - the library returns a nil net.Addr from
+// SrcAddr()/DestAddr() for a header that declares none (v2 LOCAL, unspecified family). A method called on such a
+// result without a test for nil is a nil dereference in the connection's goroutine.
+func c04HeaderAddrs(c *Ctx, r *Report, rule string) {
+	r.rule(rule, "a method is called on what proxyprotocol.Header.SrcAddr()/DestAddr() returned only behind a test that it is not nil (a v2 LOCAL header has no addresses: the result is a nil net.Addr)", 0)
+	n := 0
+	for _, fn := range sortedFuncs(c.perConnReach()) {
+		if fn.Pkg == nil || !strings.HasPrefix(fn.Pkg.Pkg.Path(), modPath) {
+			continue
+		}
+		for _, ci := range callsIn(fn) {
+			cm := ci.Common()
+			if !cm.IsInvoke() {
+				continue
+			}
+			src, ok := cm.Value.(*ssa.Call)
+			if !ok || !src.Call.IsInvoke() || (src.Call.Method.Name() != "SrcAddr" && src.Call.Method.Name() != "DestAddr") || !strings.Contains(typeStr(src.Call.Value.Type()), "proxyprotocol.Header") {
+				continue
+			}
+			n++
+			guarded := false
+			for _, cd := range edgeConds(ci.Block()) {
+				if y, neq, ok := nilCheck(cd.V); ok && y == ssa.Value(src) && ((neq && cd.Truth) || (!neq && !cd.Truth)) {
+					guarded = true
+				}
+			}
+			r.check(guarded, rule, fname(fn), fmt.Sprintf("%s().%s()#%d", src.Call.Method.Name(), cm.Method.Name(), n), c.ipos(ci), "behind a test for nil", "a method is called on the result of the header's "+src.Call.Method.Name()+"() without a test for nil: a well-formed v2 header with the LOCAL command (a load balancer's health check) declares no addresses, the result is a nil net.Addr and the call ends the connection's goroutine - and the process - with a nil dereference")
+		}
+	}
+	if n == 0 {
+		r.ok(rule, "module", "uses of header addresses", "-", "no method is called on a header's SrcAddr()/DestAddr() result")
 	}
 }
